@@ -424,6 +424,75 @@ theorem run_lastAck (es : List CEvent) (c : Client) (hL : LOk c.L) (h : RunD1 c 
     (Client.run c es).1.lastAck = lastAckAfter c.lastAck es :=
   (run_D1 es c hL h).2.2.2.2
 
+/-! ### the single-slot filter never lets the same message through twice in a row -/
+
+/-- message ids of the handler calls that carry a message of type `ty`, in order -/
+def callMids (ty : MType) : List (Dgram × Bool) → List Nat
+  | [] => []
+  | (d, _) :: r => if d.type = ty then d.mid :: callMids ty r else callMids ty r
+
+/-- no element equals its predecessor; `prev` is the predecessor of the head (the content of the filter slot) -/
+def noRepeat : Option Nat → List Nat → Prop
+  | _, [] => True
+  | prev, m :: ms => prev ≠ some m ∧ noRepeat (some m) ms
+
+instance decNoRepeat : (prev : Option Nat) → (l : List Nat) → Decidable (noRepeat prev l)
+  | _, [] => isTrue trivial
+  | prev, m :: ms => @instDecidableAnd (prev ≠ some m) (noRepeat (some m) ms) inferInstance (decNoRepeat (some m) ms)
+
+/-- among the calls the filter lets through, two successive ACK-typed ones never carry the same message id, and the
+    first differs from the slot's initial content -/
+theorem expectedCalls_ack_noRepeat (es : List CEvent) :
+    ∀ lc la, noRepeat la (callMids .ack (expectedCalls lc la es)) := by
+  induction es with
+  | nil => intro lc la; simp [expectedCalls, callMids, noRepeat]
+  | cons e es ih =>
+    intro lc la
+    cases e with
+    | appSend now d T => simpa [expectedCalls] using ih lc la
+    | tick now => simpa [expectedCalls] using ih lc la
+    | rx now d ok =>
+      by_cases hr : isResponse d.code = true
+      · cases hty : d.type with
+        | con =>
+          by_cases hl : lc = some d.mid
+          · simpa [expectedCalls, hr, hty, hl] using ih (some d.mid) la
+          · simpa [expectedCalls, hr, hty, hl, callMids] using ih (some d.mid) la
+        | non => simpa [expectedCalls, hr, hty, callMids] using ih lc la
+        | ack =>
+          by_cases hl : la = some d.mid
+          · simpa [expectedCalls, hr, hty, hl] using ih lc (some d.mid)
+          · simp only [expectedCalls, hr, hty, hl, if_true, if_false, callMids, noRepeat]
+            exact ⟨hl, ih lc (some d.mid)⟩
+        | rst => simpa [expectedCalls, hr, hty] using ih lc la
+      · simpa [expectedCalls, hr] using ih lc la
+
+/-- the same for Confirmable responses and `last_con_mid` -/
+theorem expectedCalls_con_noRepeat (es : List CEvent) :
+    ∀ lc la, noRepeat lc (callMids .con (expectedCalls lc la es)) := by
+  induction es with
+  | nil => intro lc la; simp [expectedCalls, callMids, noRepeat]
+  | cons e es ih =>
+    intro lc la
+    cases e with
+    | appSend now d T => simpa [expectedCalls] using ih lc la
+    | tick now => simpa [expectedCalls] using ih lc la
+    | rx now d ok =>
+      by_cases hr : isResponse d.code = true
+      · cases hty : d.type with
+        | con =>
+          by_cases hl : lc = some d.mid
+          · simpa [expectedCalls, hr, hty, hl] using ih (some d.mid) la
+          · simp only [expectedCalls, hr, hty, hl, if_true, if_false, callMids, noRepeat]
+            exact ⟨hl, ih (some d.mid) la⟩
+        | non => simpa [expectedCalls, hr, hty, callMids] using ih lc la
+        | ack =>
+          by_cases hl : la = some d.mid
+          · simpa [expectedCalls, hr, hty, hl] using ih lc (some d.mid)
+          · simpa [expectedCalls, hr, hty, hl, callMids] using ih lc (some d.mid)
+        | rst => simpa [expectedCalls, hr, hty] using ih lc la
+      · simpa [expectedCalls, hr] using ih lc la
+
 /-! ### a concrete run -/
 
 instance (c : Client) : (e : CEvent) → Decidable (EvD1 c e)
